@@ -239,10 +239,13 @@ rotate(Array<T, 3> const& dir, Array<T, 3> const& rot)
         cosphi = rot[X] * inv_sintheta;
         sinphi = rot[Y] * inv_sintheta;
     }
-    else if (sintheta > 0)
+    else if (T const hyp_sq = ipow<2>(rot[X]) + ipow<2>(rot[Y]);
+             sintheta > 0 && hyp_sq > 0)
     {
         // Avoid catastrophic roundoff error by normalizing x/y components
-        cosphi = rot[X] / std::sqrt(ipow<2>(rot[X]) + ipow<2>(rot[Y]));
+        // (a direction exactly along z whose z component is not exactly +-1
+        // has sintheta > 0 but no x/y components to normalize)
+        cosphi = rot[X] / std::sqrt(hyp_sq);
         sinphi = std::sqrt(1 - ipow<2>(cosphi));
     }
     else
